@@ -40,6 +40,7 @@ def listener_self(cx):
 
 @register
 class HandleSimple(Contract):
+    undecided_probe = dict(harness="observe", family="legacy", trials=80)      # legacy-vs-observe oracle on unshared graphs
     path = PATH
     qualname = "ListenerItem.handle_simple"
     properties = ("C16",)
@@ -70,6 +71,7 @@ class HandleSimple(Contract):
 
 @register
 class HandleList(Contract):
+    undecided_probe = dict(harness="observe", family="legacy", trials=80)      # legacy-vs-observe oracle on unshared graphs
     path = PATH
     qualname = "ListenerItem.handle_list"
     properties = ("C16",)
@@ -119,6 +121,7 @@ class HandleList(Contract):
 
 @register
 class HandleListItems(Contract):
+    undecided_probe = dict(harness="observe", family="legacy", trials=80)      # legacy-vs-observe oracle on unshared graphs
     path = PATH
     qualname = "ListenerItem.handle_list_items"
     properties = ("C16",)
@@ -168,6 +171,7 @@ def seq_prefix_inv(cx, seq, key):
 
 @register
 class HandleDict(Contract):
+    undecided_probe = dict(harness="observe", family="legacy", trials=80)      # legacy-vs-observe oracle on unshared graphs
     """handle_dict(object, name, old, new): every value of the mapping that left is unregistered once, every value of the
     mapping that arrived registered once (values repeated under several keys counted), everything that left first."""
     path = PATH
@@ -221,6 +225,7 @@ class HandleDict(Contract):
 
 @register
 class HandleDictItems(Contract):
+    undecided_probe = dict(harness="observe", family="legacy", trials=80)      # legacy-vs-observe oracle on unshared graphs
     """handle_dict_items(object, name, old, event): the values under removed keys leave and those under added keys arrive
     (one delegation to handle_dict), AND for every changed key the previous value leaves and the value now stored under
     that key arrives -- whatever else the same event carries (a single update() both adds and replaces)."""
@@ -331,6 +336,7 @@ class HandleDictItems(Contract):
 # ------------------------------------------------------------------------------------------------------------------
 @register
 class RegisterSimple(Contract):
+    undecided_probe = dict(harness="observe", family="legacy", trials=80)      # legacy-vs-observe oracle on unshared graphs
     """ListenerItem._register_simple(object, name, remove), the link `name` of an extended name on `object`:
 
       * LAST link (no next item): the user's handler is attached to (object, name) -- or detached when remove -- with the item's
@@ -460,6 +466,7 @@ class RegisterSimple(Contract):
 
 @register
 class RegisterList(Contract):
+    undecided_probe = dict(harness="observe", family="legacy", trials=80)      # legacy-vs-observe oracle on unshared graphs
     """ListenerItem._register_list (also _register_set) for an INTERMEDIATE container link: the two maintainers (handle_list on
     the link, handle_list_items on '<link>_items') are always attached with 'extended' dispatch; the user's handler hears the
     link only when it notifies ('.'); with ':' it is attached nowhere; every attachment carries the caller's remove flag; then
